@@ -8,6 +8,7 @@ pub mod c01;
 pub mod c02;
 pub mod c03;
 pub mod c07;
+pub mod c08;
 pub mod c09;
 pub mod c11;
 pub mod c12;
@@ -24,6 +25,7 @@ pub fn lookup(id: &str) -> Option<Box<dyn Check>> {
         "C02" => Some(Box::new(c02::C02)),
         "C03" => Some(Box::new(c03::C03)),
         "C07" => Some(Box::new(c07::C07)),
+        "C08" => Some(Box::new(c08::C08)),
         "C09" => Some(Box::new(c09::C09)),
         "C11" => Some(Box::new(c11::C11)),
         "C12" => Some(Box::new(c12::C12)),
